@@ -58,6 +58,8 @@ var checks = map[string]*check{
 		Parts: []part{
 			{Name: "routing-1id", Kind: "explore", Scen: "grpc_route", Inst: inst("single", "single"), Depths: depths([]int{2}, []int{2, 3}), Budget: budget(2*time.Minute, 10*time.Minute)},
 			{Name: "routing-2id", Kind: "explore", Scen: "grpc_route", Inst: inst("pairs", "pairs-all"), Depths: depths([]int{1}, []int{1, 2}), Budget: budget(3*time.Minute, 25*time.Minute)},
+			// the real host against a hand-written gRPC plugin that announces four brokered servers and ends the broker stream at once
+			{Name: "hand-written-peer", Kind: "explore", Scen: "raw_grpc_peer", Inst: inst("broker-eos", "broker-eos"), Depths: depths([]int{2}, []int{2, 3}), Budget: budget(2*time.Minute, 10*time.Minute)},
 			// fine-grained preemption (every function entry of go-plugin, and grpc.Dial, is a scheduling point): two ids
 			// dialled at once with one shared option slice
 			{Name: "fine-grained", Kind: "explore", Scen: "grpc_route", Inst: inst("fine", "fine"), Depths: depths([]int{2}, []int{2, 3}), Budget: budget(4*time.Minute, 30*time.Minute)},
@@ -240,6 +242,8 @@ var checks = map[string]*check{
 			{Name: "schedules", Kind: "explore", Scen: "stdio_sync", Inst: inst("sched", "sched"), Depths: depths([]int{2}, []int{2, 3}), Budget: budget(3*time.Minute, 20*time.Minute)},
 			// the real plugin.Serve (os.Stdout / os.Stderr swap, pipes, copy loops) in a real child whose garbage collector
 			// has run, against the real Client: byte-exact comparison per stream
+			// the real host against a hand-written gRPC plugin that forwards its output in chunks of any size (up to 70000 bytes)
+			{Name: "hand-written-peer", Kind: "explore", Scen: "raw_grpc_peer", Inst: inst("stdio-big", "stdio-big"), Depths: depths([]int{1}, []int{1, 2}), Budget: budget(2*time.Minute, 10*time.Minute)},
 			{Name: "real-serve", Kind: "enum", Bin: "e3.test", Test: "TestC11Proc"},
 			{Name: "conformance", Kind: "conform", Scen: "stdio_sync"},
 		},
